@@ -22,6 +22,11 @@ def grid(kind, G, seed=0):
             if len(inner) == G - 2:
                 break
         return np.array([0.0] + [k / 64.0 for k in inner] + [1.0])
+    if kind == 'N':
+        # what every fine default grid looks like at its ends: first / last interior point within 1e-6 of the end point
+        g = grid('D', G, seed)
+        g[1], g[-2] = 2.0 ** -20, 1.0 - 2.0 ** -20
+        return g
     if kind == 'D2':
         rng = np.random.RandomState(4321 + 31 * seed + G)
         while True:
